@@ -107,7 +107,9 @@ func (s *vStream) RecvMsg(m interface{}) error  { s.note(2); s.recvd++; s.lastRe
 
 var (
 	vStreamerCalls int
-	vStreamerFails bool
+	vStreamerFails bool // every attempt fails
+	vLastFailed    bool // the most recent attempt failed
+	vCreated       int  // successful creations
 	vUnder         *vStream
 	vFirstReq      interface{}
 	vFirstHasGcp   bool
@@ -125,21 +127,24 @@ func vStreamer(ctx context.Context, desc *grpc.StreamDesc, cc *grpc.ClientConn, 
 		vFirstHasGcp = true
 		vFirstReq = g.reqMsg
 	}
-	if vStreamerFails {
+	// every creation attempt succeeds or fails on its own
+	vLastFailed = vStreamerFails || verifBool("creationFails@")
+	if vLastFailed {
 		return nil, verifErr{}
 	}
 	vUnder = &vStream{}
+	vCreated++
 	return vUnder, nil
 }
 
 func vReset() {
 	vStreamerCalls, vUnder, vFirstReq, vFirstHasGcp, vStreamerCtx = 0, nil, nil, false, nil
+	vLastFailed, vCreated, vStreamerFails = false, 0, false
 }
 
 // Sequential part: any sequence of up to 4 wrapper calls from one goroutine.
 func VerifH_stream() {
 	vReset()
-	vStreamerFails = verifBool("creationFails")
 	parent := vMkParent()
 	desc := &grpc.StreamDesc{}
 	cc := &grpc.ClientConn{}
@@ -173,8 +178,8 @@ func VerifH_stream() {
 				if !attempted {
 					first = msgs[step]
 				}
-				verifAssert((serr != nil) == vStreamerFails, "C12: SendMsg result does not reflect the outcome of stream creation")
-				created = !vStreamerFails
+				verifAssert((serr != nil) == vLastFailed, "C12: SendMsg result does not reflect the outcome of stream creation")
+				created = !vLastFailed
 			} else {
 				verifAssert(vStreamerCalls == calls0, "C12: a second underlying stream was created after a success")
 				verifAssert(serr == nil, "C12: SendMsg result not delegated")
@@ -210,6 +215,7 @@ func VerifH_stream() {
 		verifAssert(vGotDesc == desc && vGotCC == cc && vGotMethod == method && vGotNOpts == nopts, "C12: stream created with other parameters than the caller's")
 		verifAssert(vStreamerCtx.Value(vUserKey{}) == interface{}(parent.userVal), "C12: caller's context value lost on the stream")
 	}
+	verifAssert(vCreated <= 1, "C12: more than one underlying stream was created")
 	verifObserve("creations", uint64(vStreamerCalls))
 	verifObserve("sends", uint64(sends))
 }
@@ -240,7 +246,6 @@ func verifOnBlock() {
 
 func VerifH_streamwait() {
 	vReset()
-	vStreamerFails = verifBool("creationFails")
 	parent := vMkParent()
 	csi, _ := GCPStreamClientInterceptor(parent, &grpc.StreamDesc{}, &grpc.ClientConn{}, "/m", vStreamer)
 	cs := csi.(*gcpClientStream)
@@ -256,7 +261,7 @@ func VerifH_streamwait() {
 	verifReach("receiver returned")
 	verifAssert(verifLocksFree(), "C12: RecvMsg left the stream mutex held")
 	verifAssert(vWaitBlocked >= 1, "C12: RecvMsg before the first SendMsg did not wait")
-	if vStreamerFails {
+	if vLastFailed {
 		verifAssert(rerr != nil, "C12: blocked RecvMsg does not return the creation error")
 	} else {
 		verifAssert(rerr == nil && vUnder != nil && vUnder.recvd == 1 && vUnder.lastRecv == interface{}(rmsg), "C12: blocked RecvMsg does not delegate once the stream exists")
